@@ -4,7 +4,7 @@ From Coq Require Import List NArith ZArith QArith Bool Lia.
 From Kenlm Require Import C05.KNDefs C05.KNSpec C05.KNModel C05.KNLex C05.KNEvents C05.KNAdjustD C05.KNAdjustE C05.KNNgramSet C06.SumQ C06.SumProofs.
 Import ListNotations.
 
-Definition thr_mono (o : options) : Prop := forall j k, (1 <= j <= k)%nat -> (thr o j <= thr o k)%N.
+Definition thr_mono (o : options) (n : nat) : Prop := forall j k, (1 <= j <= k)%nat -> (k <= n)%nat -> (thr o j <= thr o k)%N.
 
 Definition ind (b : bool) : nat := if b then 1%nat else 0%nat.
 Lemma filter_length_cons : forall {A} (p : A -> bool) x l, length (filter p (x :: l)) = (ind (p x) + length (filter p l))%nat.
@@ -84,7 +84,7 @@ Section Good.
   Variable o : options.
   Hypothesis Hc : c <> [].
   Hypothesis Hn : (1 <= n)%nat.
-  Hypothesis Hmono : thr_mono o.
+  Hypothesis Hmono : thr_mono o n.
   Let ev := events c.
   Let tab := table n o ev.
 
@@ -133,7 +133,7 @@ Section Good.
       + left. apply N.leb_le in H. apply N.leb_le.
         assert (Hne : firstn k t <> [BOS]) by (intro E; rewrite E in Es2; discriminate Es2).
         pose proof (tcount_ctx c (x :: firstn k t) ltac:(lia) Hne) as H1. cbn [tl] in H1. fold ev in H1.
-        pose proof (Hmono k (S k) ltac:(lia)) as H2. lia.
+        pose proof (Hmono k (S k) ltac:(lia) ltac:(lia)) as H2. lia.
       + right. apply (existsb_tl _ (x :: firstn k t)). exact H.
   Qed.
 
@@ -148,7 +148,7 @@ Section Good.
     unfold marked. assert (Es : special1 g = false) by (destruct g as [|x [|y t]]; simpl in Hlen; try lia; reflexivity).
     rewrite Es. destruct (special1 (removelast g)); [discriminate|]. intros H. apply orb_true_iff in H. apply orb_true_iff.
     destruct H as [H|H].
-    - left. apply N.leb_le in H. apply N.leb_le. pose proof (tcount_sfx ev g) as H1. pose proof (Hmono k (S k) ltac:(lia)) as H2. lia.
+    - left. apply N.leb_le in H. apply N.leb_le. pose proof (tcount_sfx ev g) as H1. pose proof (Hmono k (S k) ltac:(lia) ltac:(lia)) as H2. lia.
     - right. apply existsb_removelast. exact H.
   Qed.
 
